@@ -1583,6 +1583,14 @@ fn account(sum: &mut Summary, sc: &Scenario, out: &Outcome, seed: u64, case: u64
         if !seen.insert(f.sig.clone()) {
             continue;
         }
+        // C20 promises exact delivery or a prompt error, not delivery: a stream that reports
+        // an error while its peer is alive (seen under heavy loss: a retransmission and the
+        // covering ACK both lost, the stream idles out) is an observation, not a violation.
+        if f.sig.contains(":unexpected_error:") || f.sig.contains(":connect_failed:") {
+            let kind = f.sig.splitn(3, ':').nth(2).unwrap_or("error").replace(':', ".");
+            sum.count(&format!("c20.observed.{kind}"), 1);
+            continue;
+        }
         known::push_violation(sum, Violation {
             property: "C20".into(),
             signature: f.sig.clone(),
